@@ -264,7 +264,21 @@ func toolComment(c string) string {
 	return "-- " + c + "\n"
 }
 
+const maxLine = 65535 // bufio.MaxScanTokenSize - 1
+
+func shortLines(text string) bool {
+	for _, l := range modelLines(text) {
+		if len(l) > maxLine {
+			return false
+		}
+	}
+	return true
+}
+
 func dbmateOK(up string) bool {
+	if !shortLines(up) {
+		return false
+	}
 	for _, l := range modelLines(up) {
 		if strings.HasPrefix(l, "-- migrate:") || strings.Contains(l, "-- migrate:up") || strings.Contains(l, "down") {
 			return false
@@ -292,7 +306,7 @@ func gooseChangeOK(cmd, comment string) bool {
 			return false
 		}
 	}
-	return !strings.Contains(text, "\r") && !strings.HasPrefix(toolComment(comment), gooseDelim)
+	return !strings.Contains(text, "\r") && shortLines(text) && !strings.HasPrefix(toolComment(comment), gooseDelim)
 }
 
 type hypChange struct {
